@@ -319,6 +319,8 @@ def run(name, prop, tier, seed, known, lock):
         return run_cachekeys(prop, tier, seed, known, lock)
     if name == 'boundedprops':
         return run_boundedprops(prop, tier, seed, known, lock)
+    if name == 'ownership':
+        return run_ownership(prop, tier, seed, known, lock)
     raise KeyError(name)
 
 
@@ -847,4 +849,53 @@ def run_boundedprops(prop, tier, seed, known, lock):
         else:
             path = write_replay(prop, unit, rec, 'bounded exact-oracle check failed on the real code')
             out['violations'].append((key, rec, path, ''))
+    return out
+
+
+# ======================================================================================= ownership (C38)
+
+def run_ownership(prop, tier, seed, known, lock):
+    from pyvc import ownership
+    from pyvc.check import write_replay, finding_matches
+    out = {'obligations': 0, 'discharged': 0, 'records': [], 'violations': [], 'undecided': [],
+           'known_hits': [], 'errors': [], 'samples': [], 'functions': [], 'assumptions': [
+               'ownership contracts are syntactic: a store counts by its target expression; stores through getattr/setattr with a '
+               'computed name, __dict__ manipulation and C extensions are not seen',
+               'the `_mp` delegate of a context (the global mp for fp and iv) may be changed temporarily; its restoration is the C11 contract'],
+           'coverage': {}}
+    res = ownership.run(REPO)
+    nviol = 0
+    for q, rel, ln, v in res:
+        key = 'ownership|%s' % q
+        rec = {'name': key, 'kind': 'ownership', 'clause': 'W1-W4', 'status': 'proved' if not v else 'sat', 'solver': 'syntactic',
+               'line': ln}
+        unit = {'target': q, 'enum': {}, 'file': rel}
+        out['records'].append((key, rec, unit))
+        if v:
+            nviol += 1
+            rec['model_args'] = {'function': q, 'file': rel, 'line': ln}
+            rec['replay'] = {'status': 'reproduced', 'observed': '; '.join(v)[:600]}
+            kf = [k for k in known.get('findings', []) if finding_matches(k, prop, key, rec)]
+            if kf:
+                out['known_hits'].append((kf[0], key, rec))
+            else:
+                path = write_replay(prop, unit, rec, 'ownership contract violated: %s' % '; '.join(v)[:300])
+                out['violations'].append((key, rec, path, ''))
+    attrs, missing = ownership.clone_completeness(REPO)
+    key = 'ownership|clone-completeness'
+    rec = {'name': key, 'kind': 'ownership', 'clause': 'W5', 'status': 'proved' if not missing else 'sat', 'solver': 'syntactic', 'line': None}
+    unit = {'target': 'mpmath.ctx_mp.MPContext.clone', 'enum': {}, 'file': 'mpmath/ctx_mp.py'}
+    out['records'].append((key, rec, unit))
+    if missing:
+        rec['model_args'] = {'attributes': missing}
+        rec['replay'] = {'status': 'reproduced', 'observed': 'mpmath/__init__.py sets mp.%s after construction; MPContext.__init__ does not, so mp.clone() lacks it' % ', mp.'.join(missing)}
+        path = write_replay(prop, unit, rec, 'a clone of mp lacks attributes of the global mp: %s' % missing)
+        out['violations'].append((key, rec, path, ''))
+    out['obligations'] = len(out['records'])
+    out['discharged'] = sum(1 for k, rc, u in out['records'] if rc['status'] == 'proved')
+    out['samples'] = [{'obligation': 'ownership|mpmath.ctx_mp_python.PythonMPContext._set_prec', 'status': 'proved'}]
+    out['coverage'] = {'functions': len(res), 'state_stores_seen': ownership.count_state_stores(REPO),
+                       'attributes_set_on_global_mp': attrs}
+    out['functions'] = ['every function and method of mpmath outside tests (%d): ownership contract W1-W4' % len(res),
+                        'mpmath.ctx_mp.MPContext.clone: completeness W5']
     return out
